@@ -293,7 +293,8 @@ def run(chk):
         units = PC.units(PC.pc(call))
         w = norm.raw(b["W"])
         allowed_lits = {"!(self._waiter is None)", "!(self._waiter.done())", "(messages)", "(self._payload_parser is None)", "!(self._upgraded)", "!(self._force_close)",
-                        "!(self._close)", "!(self._parser is None)"}
+                        "!(self._close)", "!(self._parser is None)",
+                        "!(self._parse_failed)"}  # after a parse failure nothing further is parsed or queued: the wake-up for the queued 400 was given when it was queued
         extra = [l for l in units if str(l) not in allowed_lits]
         src_ok = norm.text(b["W"], call) == "self._waiter"
         if extra or not src_ok:
